@@ -197,6 +197,7 @@ func deepCopyCfg(c config.ServerConfig) config.ServerConfig {
 
 var c16Edits = []string{"drop-prefix_deny", "drop-prefix_allow", "remove-user", "remove-first-user", "reorder-users", "remove-commands", "remove-services", "remove-groups",
 	"remove-authenticator", "remove-accounter", "shrink-options", "remove-secret", "reorder-secrets", "add-user", "change-rule", "same-again",
+	"move-deny-to-allow", "move-allow-to-deny", "swap-deny-allow", "shift-deny-allow-boundary", "add-deny",
 	"invalid-syntax", "invalid-type", "no-users", "no-secrets", "empty-document"}
 
 func c16Edit(r *gen.R, prev config.ServerConfig, edit string) (cfg *config.ServerConfig, raw map[string][]byte) {
@@ -208,6 +209,23 @@ func c16Edit(r *gen.R, prev config.ServerConfig, edit string) (cfg *config.Serve
 		return r.Intn(len(c.Users))
 	}
 	switch edit {
+	case "move-deny-to-allow":
+		c.PrefixAllow = append(c.PrefixDeny, c.PrefixAllow...)
+		c.PrefixDeny = nil
+	case "move-allow-to-deny":
+		c.PrefixDeny = append(c.PrefixDeny, c.PrefixAllow...)
+		c.PrefixAllow = nil
+	case "swap-deny-allow":
+		c.PrefixDeny, c.PrefixAllow = c.PrefixAllow, c.PrefixDeny
+	case "shift-deny-allow-boundary":
+		// same concatenation of the two lists, another split point
+		all := append(append([]string{}, c.PrefixDeny...), c.PrefixAllow...)
+		if len(all) > 0 {
+			k := r.Intn(len(all) + 1)
+			c.PrefixDeny, c.PrefixAllow = append([]string{}, all[:k]...), append([]string{}, all[k:]...)
+		}
+	case "add-deny":
+		c.PrefixDeny = append(c.PrefixDeny, r.PickS("10.0.0.0/24", "10.1.0.0/24", "10.0.9.0/24", "10.2.0.0/16"))
 	case "drop-prefix_deny":
 		c.PrefixDeny = nil
 	case "drop-prefix_allow":
@@ -407,7 +425,11 @@ func runC16(b *mon.B) {
 		if hi%499 == 0 {
 			b.Sample("history", map[string]interface{}{"format": format, "edits": edits})
 		}
-		// ---- end to end on a sample of histories
+		// ---- the same history through the real Loader (lookups only), every history
+		if !bad {
+			c16LoaderLevel(b, caseNo, format, docs, edits)
+		}
+		// ---- end to end (lookups + AAA outcomes) on a sample of histories
 		if hi%8 == 0 && !bad {
 			c16EndToEnd(b, r, caseNo, format, docs, edits)
 		}
@@ -422,6 +444,60 @@ func maxInt(a, b int) int {
 }
 
 func pruneCfg(c config.ServerConfig) string { return canon(c) }
+
+var c16Probes = []string{"10.0.0.1", "10.0.0.200", "10.0.9.1", "10.1.0.1", "10.1.9.1", "10.2.0.1", "10.2.9.9", "10.66.0.1", "192.0.2.1", "::1"}
+
+// c16LoaderLevel feeds the history to the yaml/json loader object behind a real
+// Loader and compares Loader.Get on probe addresses with a Loader that only ever
+// saw the last good document.
+func c16LoaderLevel(b *mon.B, caseNo int, format string, docs []c16Doc, edits []string) {
+	opt := refsrv.Options{ViaYAML: format == "yaml", ViaJSON: format == "json", NoServe: true}
+	rel, err := refsrv.Start(*docs[0].Cfg, opt)
+	if err != nil {
+		return
+	}
+	defer rel.Close()
+	lastGood := docs[0].Cfg
+	for _, d := range docs[1:] {
+		if err := rel.PublishDoc(d.Raw[format]); err == nil && d.Cfg != nil {
+			lastGood = d.Cfg
+		}
+	}
+	fresh, err := refsrv.Start(*lastGood, opt)
+	if err != nil {
+		return
+	}
+	defer fresh.Close()
+	b.Count("loader_level_histories", 1)
+	look := func(ref *refsrv.Ref, a string) string {
+		sec, h, err := ref.Loader.Get(context.Background(), &net.TCPAddr{IP: net.ParseIP(a), Port: 9})
+		if err != nil || h == nil || sec == nil {
+			return "refused"
+		}
+		return "key=" + string(sec)
+	}
+	for _, a := range c16Probes {
+		g, w := look(rel, a), look(fresh, a)
+		b.Count("loader_level_lookups_compared", 1)
+		if g != w {
+			b.Violate(caseNo, fmt.Sprintf("C16/%s/loader-lookup-differs-after-reload", format),
+				fmt.Sprintf("%s: after the load history %v a lookup of %s gives %q; a loader started on the last good document alone gives %q", format, edits, a, g, w),
+				map[string]interface{}{"format": format, "edits": edits, "address": a, "reloaded": g, "fresh": w,
+					"last_good_deny": docsLast(docs).PrefixDeny, "last_good_allow": docsLast(docs).PrefixAllow})
+			return
+		}
+	}
+}
+
+func docsLast(docs []c16Doc) config.ServerConfig {
+	var last config.ServerConfig
+	for _, d := range docs {
+		if d.Cfg != nil && len(d.Cfg.Users) > 0 && len(d.Cfg.Secrets) > 0 {
+			last = *d.Cfg
+		}
+	}
+	return last
+}
 
 // c16EndToEnd: the same history through Loader + lookups/AAA, compared with a
 // server started on the last good document alone.
